@@ -15,6 +15,9 @@ Two variants are modelled, selected by `fixed : Bool`:
   (cells outside the matrix count 0, gap states start at −∞), maximum tracked everywhere, trace-back
   stops at any non-positive cell, empty sequences rejected with an error.
 
+Independently, `newPwAligner … (alphaFixed := true)` models the matrix choice after
+`proposed_fixes/c09-aligner-alphabet.diff` (membership in the index maps instead of `DetectAlphabet`).
+
 Scores.  Go computes in `float64`.  The model computes in `Int`, every score being expressed in
 units of `1/den` (`den` a power of two, normally 2: `-0.5 ↦ -1`).  The two readings coincide under
 `DyadicScheme` below: all configured scores are integer multiples of `1/den` and every intermediate
